@@ -611,5 +611,11 @@ func (k Keeper) validateDeposit(ctx sdk.Context, deposit sdk.Coins) error {
 		return sdkerrors.Wrapf(types.ErrInvalidDeposit, "deposit only accepts %s", baseDenom)
 	}
 
+	// the deposit is added to the deposit already held before the bank is asked for the coins;
+	// an amount no account can hold is rejected here instead of overflowing sdk.Int there
+	if deposit[0].Amount.GTE(maxAmount) {
+		return sdkerrors.Wrapf(types.ErrInvalidDeposit, "deposit %s is too large", deposit)
+	}
+
 	return nil
 }
